@@ -320,6 +320,8 @@ struct CState {
     deadline: Instant,
     grace: Duration,
     report: CondReport,
+    lane: usize,
+    epoch0: u64,
 }
 
 pub struct Conductor {
@@ -349,6 +351,8 @@ impl Conductor {
                 deadline: Instant::now(),
                 grace: Duration::from_millis(30),
                 report: CondReport::default(),
+                lane: 0,
+                epoch0: 0,
             }),
             cv: Condvar::new(),
         }
@@ -356,6 +360,8 @@ impl Conductor {
 
     pub fn arm(&self, tracker: Tracker, strategy: Strategy, deadline: Duration) {
         let mut st = self.m.lock().unwrap();
+        st.lane = crate::hsys::lane_of_current_thread().unwrap_or(63);
+        st.epoch0 = crate::hsys::PANIC_EPOCH[st.lane].load(std::sync::atomic::Ordering::SeqCst);
         st.active = true;
         st.free = false;
         st.tracker = Some(tracker);
@@ -483,7 +489,10 @@ impl Conductor {
                 on_grant();
                 return GateResult::Pass;
             }
-            if Instant::now() > st.deadline {
+            let panicked = crate::hsys::PANIC_EPOCH[st.lane]
+                .load(std::sync::atomic::Ordering::SeqCst)
+                != st.epoch0;
+            if panicked || Instant::now() > st.deadline {
                 st.report.abandoned = true;
                 st.free = true;
                 self.cv.notify_all();
